@@ -16,7 +16,8 @@ ASTs        B and|or <n> … | 1 not|usub|uadd|invert <a> | 2 bitand|bitor|x:<Ty
             M <n> <left> (<op> <a>){n} | K <n> <func> <a>{n} | N <hex> | A <hex> <a> | C <const> |
             L <n> … | U <n> … | O <Type> <n> …
 
-  cfg index <hex>                declares a catalog entry
+  cfg index <hex>                declares a catalog entry (also in the middle of a session: `catalog[name] = index`)
+  cfg delindex <hex>             `del catalog[name]`
   parse <k> (E <ast> | S <Type>){k}
                                  ->  `ok <obj>` | `err <Class>`   ##   `ok <obj>` | `reject`
   synerr <Class>                 ->  `err <Class> ## reject`      (ast.parse itself raised)
@@ -500,6 +501,11 @@ def step (st : St) (toks : List String) : St × String :=
   | ["cfg", "index", name] =>
     match str? name with
     | some s => ({ st with cat := s :: st.cat }, "ok")
+    | none => (st, "bad-op")
+  | ["cfg", "delindex", name] =>
+    -- `del catalog[name]` in the middle of a session (the CatalogQuery stream of props/c10.py)
+    match str? name with
+    | some s => ({ st with cat := st.cat.filter (fun n => n != s) }, "ok")
     | none => (st, "bad-op")
   | "cfg" :: _ => (st, "ok")
   | "parse" :: rest =>
